@@ -10,6 +10,7 @@ C18 — Fail-stop: truncated or missing files raise, never yield a wrong tree.
   fewer bytes than it consumes raises `StreamError`.
 -/
 import Alos2.Proofs.ImageIO
+import Alos2.Proofs.ProductOpen
 
 namespace Alos2.C18
 
@@ -27,5 +28,10 @@ theorem complete_image (t : RecordTypes) (file : Bytes) (n L P code rpc : Nat)
 
 /-- non-vacuity: a 720-byte file declaring one 200-byte record is "truncated" in the sense of the theorem -/
 example : headerSize ≤ 720 ∧ 720 < headerSize + 1 * 200 := by decide
+
+/-- a product without `summary.txt` is reported as an OSError (whole-product model; the other missing files map to
+    FileNotFoundError: error classes compared on damaged products by the whole-product correspondence) -/
+theorem missing_summary (fs : Files) (rpc : Nat) (h : fs.get "summary.txt" = none) : openProduct fs rpc = .error .os :=
+  openProduct_missing_summary fs rpc h
 
 end Alos2.C18
